@@ -20,7 +20,7 @@ from ..runner import Outcome, fail, open_features
 from ..strategies import Cfg, query_case, Ctx, int_term, ent_term, chance, leaf
 from ..world import build_entities, CLASSES, CONSTRUCTED
 from ..build import declare_vars, build_infer
-from ..qcheck import satisfying, case_features, render_query, ident
+from ..qcheck import abandon, satisfying, case_features, render_query, ident
 
 from entity_query_language.symbolic import SymbolicExpression
 
@@ -50,6 +50,12 @@ def _case(draw, tier):
     c = draw(query_case(cfg))
     nv = len(c["vars"])
     ctx = Ctx(cfg, c["ents"], nv)
+    if chance(draw, 1, 5):
+        # a body variable without a domain, declared in rule mode with a keyword constraint (the repository's own
+        # predicate-style rules): its constraint is expanded lazily at the first evaluation
+        vd = c["vars"][draw(st.integers(0, nv - 1))]
+        f_ = draw(st.sampled_from(["a", "b"]))
+        vd.update(decl="registry", in_rule=True, kw=[[f_, c["ents"][draw(st.sampled_from(c["doms"][vd["dom"]]))][f_]]])
 
     def value_term(v):
         k = draw(st.sampled_from(["var", "var", "int", "ref", "const", "s", "o"]))
@@ -96,7 +102,14 @@ def _case(draw, tier):
         v = draw(st.integers(0, nv - 1))
         T_ = ["attr", ["var", v], "s"]
         c["cond"] = ["and", "nary", [["truth", T_], c["cond"]] if draw(st.booleans()) else [c["cond"], ["truth", T_]]]
-        head["args"][-1][1] = ["call", T_, "startswith", [draw(st.sampled_from(["x", "y"]))]]
+        nested = ["call", T_, "startswith", [draw(st.sampled_from(["x", "y"]))]]
+        slot = "tag" if head["cls"] == "Pair" else "val"      # (never the argument that carries a variable of its own)
+        for a_ in head["args"]:
+            if a_[0] == slot:
+                a_[1] = nested
+                break
+        else:
+            head["args"].append([slot, nested])
         c["share_terms"] = True
     head["positional"] = draw(st.booleans())
     c["head"] = head
@@ -181,6 +194,15 @@ def check(case) -> Outcome:
         q = build_infer(V, head, case["cond"], case["infer_style"], case.get("split_top"))
     except Exception as e:
         return fail("exception", f"building: {type(e).__name__}: {e}", nontrivial=nontrivial, classes=classes, features=feats)
+    try:
+        abandon(q, case.get("abandon_first", 0))       # an evaluation given up after a few instances comes first
+    except Exception as e:
+        return fail("exception", f"abandoned evaluation: {type(e).__name__}: {e}", nontrivial=nontrivial, classes=classes,
+                    features=feats)
+    if case.get("abandon_first"):
+        classes.append("after_abandoned_evaluation")
+    if any(v.get("decl") == "registry" for v in case["vars"]):
+        classes.append("registry_variable_with_keyword_constraint")
     earlier = []
     # the same rule object is evaluated three times: EVERY evaluation constructs one new instance per satisfying assignment
     for attempt in (1, 2, 3):
